@@ -559,6 +559,9 @@ class SFTPFile(BufferedFile):
             return 0
 
     def _start_prefetch(self, chunks, max_concurrent_requests=None):
+        if len(chunks) == 0:
+            # nothing to ask for, so nothing would ever mark it done
+            return
         self._prefetching = True
         self._prefetch_done = False
         with self._prefetch_lock:
